@@ -128,9 +128,9 @@ Proof. intros v. exact (conj (tie_between0And2Pi v) (tie_betweenMinusPiAndPi v))
 Print Assumptions C10_source_tie_normalisers.
 
 Theorem C10_source_tie_rotation_to_angles :
-  (forall m : mat2 R, src_rotation2DToEulerAngle ROps (a10 m) (a01 m) (a00 m) (a11 m) = rotation2DToEulerAngle ROps ROps idR idR m) /\
+  (forall m : mat2 R, src_rotation2DToEulerAngle ROps (a00 m) (a01 m) (a10 m) (a11 m) = rotation2DToEulerAngle ROps ROps idR idR m) /\
   (forall m : mat3 R, nleb ROps (nabs ROps (m20 m)) (n_one ROps) = true ->
      rotation3DToEulerAngles ROps ROps idR idR m =
-     (let '(r, p, y) := src_rotation3DToEulerAngles ROps (m21 m) (m22 m) (m20 m) (m10 m) (m00 m) in Some (mkV3 r p y))).
+     (let '(r, p, y) := src_rotation3DToEulerAngles ROps (m00 m) (m10 m) (m20 m) (m21 m) (m22 m) in Some (mkV3 r p y))).
 Proof. exact (conj tie_rotation2DToEulerAngle tie_rotation3DToEulerAngles). Qed.
 Print Assumptions C10_source_tie_rotation_to_angles.
